@@ -141,7 +141,7 @@ def check_cov(rec, name, P, scale, eps=2.2e-16, c=256.0):
     return rec.check(lam >= -c * eps * scale, "cov_not_psd:" + name, lambda: "%s covariance has eigenvalue %.3g (scale %.3g)" % (name, lam, scale)) and ok
 
 
-def compare_step(rec, name, ref, x, P, extra=1.0, terms=None):
+def compare_step(rec, name, ref, x, P, extra=1.0, terms=None, absP=0.0):
     """backward-error shaped comparison: K = P^- C^T S^-1 carries a relative error eps*kappa(S) and the update (I - K C) P^- then
     cancels, so errors scale with eps * kappa(S) * max(1, |K||C|) * |P^-| (times the dimension for the accumulated products).
     The mean x+ = x^- + K (y - yhat) is a FORWARD bound on the terms it is assembled from: x^- = A x + B u + c1 and
@@ -153,7 +153,7 @@ def compare_step(rec, name, ref, x, P, extra=1.0, terms=None):
     kS = float(np.linalg.cond(ref["S"]))
     nPm = float(np.linalg.norm(ref["Pm"], 2))
     gain = kS * max(1.0, float(np.linalg.norm(ref["K"], 2)) * float(np.linalg.norm(ref["C"], 2))) * n * extra
-    tolP = 128 * eps * gain * nPm
+    tolP = 128 * eps * gain * nPm + absP
     eP = float(np.linalg.norm(P - ref["Pp"], 2))
     rec.notes["P:" + name] = max(rec.notes.get("P:" + name, 0), eP / tolP)
     okP = rec.check(eP <= tolP, "cov:" + name, lambda: "%s posterior covariance differs from the Kalman filter by %.3g (tol %.3g, kappa(S)=%.3g)" % (name, eP, tolP, kS))
@@ -161,6 +161,9 @@ def compare_step(rec, name, ref, x, P, extra=1.0, terms=None):
     if terms is not None:
         mx, my = max(mx, float(terms[0])), max(my, float(terms[1]))
     tolx = 128 * eps * gain * (mx + float(np.linalg.norm(ref["K"], 2)) * my)
+    if absP:
+        # the same cancellation enters the gain: relative error absP/|P^-| in the covariance blocks, amplified by kappa(S) in K
+        tolx += absP / max(nPm, 1e-300) * kS * float(np.linalg.norm(ref["K"], 2)) * my
     ex = float(np.linalg.norm(x - ref["xp"]))
     rec.notes["x:" + name] = max(rec.notes.get("x:" + name, 0), ex / tolx)
     okx = rec.check(ex <= tolx, "mean:" + name, lambda: "%s posterior mean differs from the Kalman filter by %.3g (tol %.3g): %s vs %s" % (name, ex, tolx, x.tolist(), ref["xp"].tolist()))
@@ -234,7 +237,18 @@ class Linear(Sub):
                 spread_y = nx * math.sqrt(float(np.linalg.norm(ref["Pm"], 2)) / (nx + kk_))
             tx = aA @ (np.abs(x) + spread_x) + np.abs(s["B"]) @ np.abs(u) + np.abs(s["c1"])
             ty = np.abs(y) + aC @ (tx + spread_y) + np.abs(s["D"]) @ np.abs(u) + np.abs(s["c2"])
-            ok, scale = compare_step(rec, name, ref, xo, Po, extra, terms=(np.linalg.norm(tx), np.linalg.norm(ty)))
+            absP = 0.0
+            if name == "UKF":
+                # cancellation in the sigma-point deviations: x_i - mean and y_i - mean are differences of numbers of size tx, ty
+                # (absolute error eps tx, eps ty) whose value is only the spread sqrt((n+k)|P^-|); every covariance block is a
+                # weighted sum (weights 1/(2(n+k))) of 2n products deviation x deviation, so it carries 2 eps t sqrt(|P^-|/(n+k)) per
+                # block, and P+ = Pxx - K Pyy K^T combines them with |K|, |K|^2.  (Found by an independent false-alarm audit: nx = 1,
+                # n + k = 1, |x^-| ~ 100 gave 1.85 x the tolerance without this term; pypose was 1e-12 relative to the 50-digit
+                # reference, ordinary rounding.)
+                nK = float(np.linalg.norm(ref["K"], 2))
+                absP = 8 * nx * 2.220446049250313e-16 * math.sqrt(float(np.linalg.norm(ref["Pm"], 2)) / (nx + kk_)) * \
+                    (1.0 + nK * float(np.linalg.norm(s["C"], 2))) * (float(np.linalg.norm(tx)) + nK * float(np.linalg.norm(ty)))
+            ok, scale = compare_step(rec, name, ref, xo, Po, extra, terms=(np.linalg.norm(tx), np.linalg.norm(ty)), absP=absP)
             if name == "EKF" or ((3 - nx) if k is None else k) >= 0:
                 check_cov(rec, name, Po, scale)
             if not ok:
